@@ -64,7 +64,15 @@ def remove_cand(ctx):
     from votekit.ballot import Ballot
     P = ctx.params
     cands, removed, kind = P["cands"], P["removed"], P["kind"]
-    ballots, rows = build(ctx, P["specs"])
+    specs = P["specs"]
+    if P.get("rename"):
+        # names that contain one another: a removal must match whole names only
+        ren = P["rename"]
+        rn = lambda c: ren.get(c, c)
+        cands = [rn(c) for c in cands]
+        removed = [rn(c) for c in removed]
+        specs = [([[rn(c) for c in p] for p in shape], ({rn(c): v for c, v in sc.items()} if sc else sc)) for shape, sc in specs]
+    ballots, rows = build(ctx, specs)
     condense, leave = P.get("condense", True), P.get("leave_zero", False)
     if kind == "profile":
         arg = PreferenceProfile(ballots=tuple(ballots), candidates=tuple(cands))
@@ -360,6 +368,16 @@ def tasks(tier, seed):
                 use = seqs
             out.append({"harness": "c12.cleaning", "params": {"func": func, "seqs": use, "cands": ["A", "B", "C", "Z"], **extra},
                         "sig_keys": ["func"], "name": f"{func} {extra} {[''.join(s) for s in use]}"})
+    NESTED = {"A": "Ann", "B": "Anna", "C": "An", "Z": "Annabel", "D": "Bo"}
+    for si, ss in enumerate(specsets[:2]):
+        for rem in (["A"], ["B"], ["C"], ["Z"], ["A", "B"]):
+            for kind in ("profile", "tuple", "ballot"):
+                variants = [ss] if kind != "ballot" else [[x] for x in ss[:3]]
+                for v in variants:
+                    out.append({"harness": "c12.remove_cand",
+                                "params": {"cands": C.K3, "removed": rem, "kind": kind, "specs": v, "condense": True, "leave_zero": False,
+                                           "as_str": len(rem) == 1, "rename": NESTED},
+                                "sig_keys": ["kind"], "name": f"remove_cand nested-names {rem} {kind} {[C.shape_str(s) for s, _ in v]}"})
     out.append({"harness": "c12.expand", "params": {"cands": C.K3, "specs": spec("ABC"), "with_ids": False}, "canary": "weight-over-k",
                 "stop_on_violation": True, "name": "canary:weight-over-k", "xval_stride": 0})
     out.append({"harness": "c12.remove_cand", "params": {"cands": C.K3, "removed": ["A"], "kind": "tuple", "specs": spec("A", "B"), "condense": True, "leave_zero": False},
